@@ -20,6 +20,8 @@ import traceback
 from pathlib import Path
 
 VERIF = Path(__file__).resolve().parent.parent
+# evidence and replays go here; only harness/seedtest.py (runs against mutated scratch trees) redirects it
+OUT = Path(os.environ.get("VERIF_OUT", str(VERIF)))
 LEAN = VERIF / "lean"
 STD_AXIOMS = {"propext", "Classical.choice", "Quot.sound"}
 FORBIDDEN = re.compile(r"\bsorry\b|\badmit\b|^\s*axiom\s|native_decide|bv_decide|implemented_by|\bunsafe\s|maxHeartbeats\s+0")
@@ -105,7 +107,7 @@ def summarize(sc):
 
 
 def write_replay(pid, payload):
-    d = VERIF / "replays"
+    d = OUT / "replays"
     d.mkdir(exist_ok=True)
     blob = json.dumps(payload, sort_keys=True, default=str)
     h = hashlib.sha1(blob.encode()).hexdigest()[:12]
@@ -235,8 +237,8 @@ def run_check(pid, tier, seed, t0, replay):
                         "magnitudes stay inside the float range"],
         "wall_s": round(wall, 2), "violations": len(violations) + (1 if (problems and not violations) else 0),
     }
-    (VERIF / "evidence").mkdir(exist_ok=True)
-    (VERIF / "evidence" / f"{pid}.json").write_text(json.dumps(evidence, indent=1, default=str))
+    (OUT / "evidence").mkdir(parents=True, exist_ok=True)
+    (OUT / "evidence" / f"{pid}.json").write_text(json.dumps(evidence, indent=1, default=str))
     for ln in out_lines:
         print(ln)
     print(f"{pid} {tier}: theorems {n_proof_ok}/{n_proof}, correspondence {res['corr_ok']}/{res['corr_obligations']}, "
